@@ -114,6 +114,17 @@ PROPS = {
                              'what a terminate() in the middle of a save leaves behind is C13'],
                 not_covered=['interrupt instants inside TaskState methods and inside Runner/Executor methods other than the statement boundaries listed in the evidence (scope S2) are not decided by the verifier; the native line-injection replay (replay/c14.py) samples them'],
                 design_ref='7/C14'),
+    'C15': dict(functions=['labtech.tasks:immutable_param_value', 'labtech.tasks:find_tasks_in_param', 'labtech.tasks:get_direct_dependencies',
+                           'labtech.tasks:_task_post_init', 'labtech.tasks:_task__getstate__', 'labtech.tasks:_task__setstate__'],
+                lemmas=['C15/norm-immutable/step-PV', 'C15/norm-immutable/step-PL', 'C15/norm-immutable/step-PE',
+                        'C15/norm-keeps-tasks/step-PV', 'C15/norm-keeps-tasks/step-PL', 'C15/norm-keeps-tasks/step-PE',
+                        'C15/norm-idempotent/step-PV', 'C15/norm-idempotent/step-PL', 'C15/norm-idempotent/step-PE'],
+                replay='replay.values', standin='replay.values',
+                assumptions=['TRUSTED: dataclass(frozen=True, eq=True, order=True) makes instances frozen, compares by class and field tuple and hashes consistently (checked natively by the stand-in, not proved)',
+                             'structural induction over finite value trees (the induction schema emitting the step lemmas is trusted meta-theory)',
+                             'A-tree: parameter values are finite trees',
+                             'BOUNDED, NOT PROVED: _task_post_init, __getstate__ and __setstate__ assign attributes with computed names and are outside the translated fragment; they are decided by the native stand-in over enumerated parameter trees (depth <= 2 quick, 3 thorough) and pickle protocols 2 and HIGHEST'],
+                design_ref='7/C15'),
     'C16': dict(functions=[f'{PE}._start_processes', f'{PE}.submit', f'{PE}.wait', f'{SP}._submit_task', f'{SR}.wait'],
                 lemmas=[], replay='replay.c16', standin='replay.c16',
                 assumptions=['TRUSTED: what fork and spawn mean (inherit memory vs fresh interpreter) is the semantics of multiprocessing; the obligation is that processes are created from the backend\'s own context object',
